@@ -57,6 +57,7 @@ pub fn cases(args: &[String]) {
     std::panic::set_hook(Box::new(|_| {}));
     let mut out = Vec::new();
     for i in 0..n {
+        crate::util::tick_idx(i as u64, serde_json::Value::Null);
         let mut rng = SplitMix64::new(seed ^ 0xC11 ^ i.wrapping_mul(0x9E3779B97F4A7C15));
         rng.next_u64();
         let m = if rng.coin(0.5) { rng.range(1, 8) } else { rng.range(1, 32) } as usize;
@@ -105,8 +106,10 @@ pub fn cases(args: &[String]) {
         if let Ok(sig) = &r {
             for k in 0..m {
                 let mut h = WyHash::with_seed(s.verif_wyhash_seed());
-                for j in 0..l {
-                    let di = idx[k * l + j] as usize;
+                // the specification: the l selected elements are read in sequence order, whatever order the store keeps them in
+                let mut sel: Vec<usize> = (0..l).map(|j| idx[k * l + j] as usize).collect();
+                sel.sort();
+                for di in sel {
                     if di < data.len() {
                         h.write_u64(fnv(data[di]));
                     } else {
@@ -154,6 +157,7 @@ pub fn props(args: &[String]) {
     }
     let mut tried = 1u64;
     for _ in 0..n {
+        crate::util::tick_idx(0, serde_json::Value::Null);
         let m = if rng.coin(0.5) { rng.range(1, 8) } else { rng.range(1, 32) } as usize;
         let l = 1usize;
         let data = gen_seq(&mut rng, l);
@@ -194,6 +198,7 @@ pub fn props(args: &[String]) {
         seq.iter().map(|e| { let c = cnt.entry(*e).or_insert(0); let r = (*e, *c); *c += 1; r }).collect()
     };
     for _ in 0..n {
+        crate::util::tick_idx(0, serde_json::Value::Null);
         let m = if rng.coin(0.5) { rng.range(1, 8) } else { rng.range(1, 32) } as usize;
         let l = rng.range(1, 6) as usize;
         let data = gen_seq(&mut rng, l);
@@ -254,6 +259,7 @@ pub fn mc(args: &[String]) {
         for m in [4usize, 32] {
             let mut sum = 0.0f64;
             for _ in 0..trials {
+                crate::util::tick_idx(0, serde_json::Value::Null);
                 let ids: Vec<u64> = (0..(a_only + both + b_only)).map(|_| rng.next_u64() >> 4).collect();
                 let a: Vec<u64> = ids[..a_only + both].to_vec();
                 let b: Vec<u64> = ids[a_only..].to_vec();
@@ -363,6 +369,7 @@ pub fn mc_rep(args: &[String]) {
         for m in [8usize, 64] {
             let mut sum = 0.0f64;
             for _ in 0..trials {
+                crate::util::tick_idx(0, serde_json::Value::Null);
                 let ids: Vec<u64> = (0..5).map(|_| rng.next_u64() >> 4).collect();
                 let a: Vec<u64> = pa.iter().map(|i| ids[*i as usize]).collect();
                 let b: Vec<u64> = pb.iter().map(|i| ids[*i as usize]).collect();
